@@ -1790,7 +1790,9 @@ def _f_product_table(P, R, rule, g0):
         want = {tuple(sorted(zip(sorted(set(names)), vs))) for vs in itertools.product((False, True), repeat=len(set(names)))}
         seen, bad, conflict = 0, None, False
         for st, v, evs in paths:
-            if st != "ok" or not any(ev[0] == "assume" and ev[2] == "Object" and any(x[0] == "variant" and str(x[1]).endswith("TypeDefinition") for x in ev[3].ref.args[0].origin) for ev in evs if ev[0] == "assume" and isinstance(ev[3].ref, _Var) and ev[3].ref.args):
+            # the parent's kind is the first thing a path assumes about a TypeDefinition (later ones are about members of a union / implementers)
+            kinds = [ev[2] for ev in evs if ev[0] == "assume" and isinstance(ev[3].ref, _Var) and str(ev[3].ref.adt or "").endswith("TypeDefinition")]
+            if st != "ok" or not kinds or kinds[0] != "Object":
                 continue
             v = _d(v)
             if not isinstance(v, list):
